@@ -129,6 +129,11 @@ def main():
     elif scenario == "index_save":
         idx = imd5(ibuild(ws, fs), state=state)
         isave(idx, odb=odb)
+    elif scenario == "store_transfer_verify_rot":
+        src = LocalHashFileDB(fs, os.path.join(root, "src"))
+        with open(os.path.join(root, "src-oids.json")) as fh:
+            oids = json.load(fh)
+        transfer(src, odb, {HashInfo("md5", o) for o in oids}, shallow=True, verify=True)
     elif scenario in ("store_transfer", "store_transfer_named"):
         src = LocalHashFileDB(fs, os.path.join(root, "src"))
         with open(os.path.join(root, "src-oids.json")) as fh:
